@@ -44,12 +44,13 @@ type World struct {
 	Kinds   map[string]*Kind
 	KindsL  []*Kind
 
-	ssaw       *ssaWorld // lazily built
-	sc         *summaryCache
-	factCache  map[string]*KindFacts
-	floorCache map[string][2]any
-	fail       *failInfo
-	tflow      *typeFlow
+	ssaw        *ssaWorld // lazily built
+	sc          *summaryCache
+	factCache   map[string]*KindFacts
+	floorCache  map[string][2]any
+	fail        *failInfo
+	tflow       *typeFlow
+	callerCache map[*types.Func]bool
 }
 
 func goEnv() []string {
